@@ -354,13 +354,19 @@ func (sw *SingleAddressWallet) selectUTXOs(amount types.Currency, inputs int, us
 	// fund the transaction using the largest utxos first
 	var selected []types.SiacoinElement
 	var inputSum types.Currency
+	selectedAll := true
 	for i, sce := range utxos {
 		if inputSum.Cmp(amount) >= 0 {
 			utxos = utxos[i:]
+			selectedAll = false
 			break
 		}
 		selected = append(selected, sce.Share())
 		inputSum = inputSum.Add(sce.SiacoinOutput.Value)
+	}
+	if selectedAll {
+		// every confirmed utxo was selected; none is left for defragging
+		utxos = nil
 	}
 
 	if inputSum.Cmp(amount) < 0 && useUnconfirmed {
